@@ -185,9 +185,14 @@ func c18Case(ev *vlib.Evidence, idx int) {
 		return out
 	}
 	node.PeerList = mkLocal()
+	if fr := vlib.Rand("C18-nodefault", idx); fr.Intn(5) == 0 {
+		// the Ethereum node refuses one kind of admin call (module not enabled, RPC hiccup): the
+		// agent still makes every other call the round requires
+		node.FailOn = vlib.Pick(fr, "RemoveTrustedPeer", "DisconnectPeer")
+	}
 	sp := &scriptedPool{}
 	a := &agent.Agent{EthNode: node, NumHosts: target, StrictPeers: strict, UpdateInterval: time.Hour}
-	trace := []string{fmt.Sprintf("config strict=%v fullnode=%v kind=%s target=%d apply=%v", strict, full, kind, target, node.Apply)}
+	trace := []string{fmt.Sprintf("config strict=%v fullnode=%v kind=%s target=%d apply=%v node-fails=%q", strict, full, kind, target, node.Apply, node.FailOn)}
 	rounds := 1 + r.Intn(4)
 	type script struct {
 		active, invalid []string
